@@ -63,6 +63,8 @@ type prattModel struct {
 	prefix   map[string]*handler
 	infix    map[string]*handler
 	cmpOp    token.Token // comparison in the Pratt loop: precedence <op> peekPrecedence()
+	precLit  map[int64]int64 // the precedences literal by token value
+	precPeek map[int64]int64 // peekPrecedence() evaluated for every peek token
 	stops    []string
 	problems []string
 }
@@ -125,24 +127,50 @@ func (m *Model) extractPratt() *prattModel {
 	if !found {
 		pm.problems = append(pm.problems, "parser.precedences table not found")
 	}
-	// peekPrecedence: default value
+	// peekPrecedence: evaluated for every token type (constant propagation through whatever helpers it uses)
+	if w := m.globalMapWritten("parser", "precedences"); w != "" {
+		pm.problems = append(pm.problems, "the precedences table is written at "+w+": it is not a constant table")
+	}
+	pm.precLit = map[int64]int64{}
+	for n, v := range pm.prec {
+		pm.precLit[pm.tokVal[n]] = v
+	}
 	pk := m.Method("parser", "Parser", "peekPrecedence")
 	if pk == nil {
 		pm.problems = append(pm.problems, "peekPrecedence not found")
 	} else {
-		okDefault := false
-		for _, b := range pk.Blocks {
-			for _, in := range b.Instrs {
-				if r, ok := in.(*ssa.Return); ok && len(r.Results) == 1 {
-					if c, ok := r.Results[0].(*ssa.Const); ok {
-						pm.lowest = c.Int64()
-						okDefault = true
-					}
-				}
+		pm.precPeek = map[int64]int64{}
+		var defaults = map[int64]string{}
+		for tv, tn := range pm.tokName {
+			ip := m.parserInterp(-1, tv, pm.precLit, nil)
+			res, ok := ip.Run(pk, []any{nil})
+			c, isC := res.(constant.Value)
+			if !ok || !isC || c.Kind() != constant.Int {
+				pm.problems = append(pm.problems, "peekPrecedence could not be evaluated for peek token "+tn)
+				continue
+			}
+			v, _ := constant.Int64Val(c)
+			pm.precPeek[tv] = v
+			if _, inTable := pm.precLit[tv]; !inTable {
+				defaults[v] = tn
 			}
 		}
-		if !okDefault {
-			pm.problems = append(pm.problems, "peekPrecedence has no constant default return")
+		switch len(defaults) {
+		case 1:
+			for v := range defaults {
+				pm.lowest = v
+			}
+		case 0:
+			pm.problems = append(pm.problems, "peekPrecedence: no token outside the precedences table")
+		default:
+			pm.problems = append(pm.problems, fmt.Sprintf("peekPrecedence returns different levels for tokens outside the precedences table: %v", defaults))
+		}
+		// the effective table is what peekPrecedence computes
+		for tv, v := range pm.precPeek {
+			tn := pm.tokName[tv]
+			if _, inTable := pm.precLit[tv]; inTable || v != pm.lowest {
+				pm.prec[tn] = v
+			}
 		}
 	}
 	// registrations in parser.New
@@ -214,26 +242,73 @@ func (m *Model) extractPratt() *prattModel {
 		pm.problems = append(pm.problems, "parseExpression not found")
 		return pm
 	}
+	// the dynamic call of the looked-up infix function, and the branch facts that dominate it
+	var infixCall *ssa.Call
 	for _, b := range pe.Blocks {
 		for _, in := range b.Instrs {
-			bo, ok := in.(*ssa.BinOp)
-			if !ok {
+			c, ok := in.(*ssa.Call)
+			if !ok || c.Call.StaticCallee() != nil || c.Call.IsInvoke() {
 				continue
 			}
-			if c, ok := bo.Y.(*ssa.Call); ok && c.Call.StaticCallee() == pk && len(pe.Params) == 2 && bo.X == ssa.Value(pe.Params[1]) {
-				pm.cmpOp = bo.Op
+			v := c.Call.Value
+			if ex, isEx := v.(*ssa.Extract); isEx {
+				v = ex.Tuple
 			}
-			if c, ok := bo.X.(*ssa.Call); ok && c.Call.StaticCallee() == pk && len(pe.Params) == 2 && bo.Y == ssa.Value(pe.Params[1]) {
-				// peekPrecedence() > precedence  ==  precedence < peekPrecedence()
-				switch bo.Op {
-				case token.GTR:
-					pm.cmpOp = token.LSS
-				case token.GEQ:
-					pm.cmpOp = token.LEQ
-				default:
-					pm.cmpOp = token.ILLEGAL
+			if lk, isLk := v.(*ssa.Lookup); isLk {
+				if _, p, ok := pathOf(lk.X); ok && p == ".infixParseFns" {
+					infixCall = c
 				}
 			}
+		}
+	}
+	if infixCall == nil {
+		pm.problems = append(pm.problems, "parseExpression: the call of the looked-up infix function was not found")
+	} else {
+		isPeekPrec := func(v ssa.Value) bool {
+			c, ok := v.(*ssa.Call)
+			if !ok || c.Call.StaticCallee() == nil {
+				return false
+			}
+			if c.Call.StaticCallee() == pk {
+				return true
+			}
+			// any helper that computes the same table
+			for tv := range pm.tokName {
+				ip := m.parserInterp(-1, tv, pm.precLit, nil)
+				res, ok := ip.EvalValue(c, 0)
+				rc, isC := res.(constant.Value)
+				if !ok || !isC {
+					return false
+				}
+				if got, _ := constant.Int64Val(rc); got != pm.precPeek[tv] {
+					return false
+				}
+			}
+			return true
+		}
+		negate := map[token.Token]token.Token{token.LSS: token.GEQ, token.GEQ: token.LSS, token.LEQ: token.GTR, token.GTR: token.LEQ, token.EQL: token.NEQ, token.NEQ: token.EQL}
+		flip := map[token.Token]token.Token{token.LSS: token.GTR, token.GTR: token.LSS, token.LEQ: token.GEQ, token.GEQ: token.LEQ, token.EQL: token.EQL, token.NEQ: token.NEQ}
+		for _, f := range expandFacts(factsAt(infixCall.Block())) {
+			bo, ok := f.Cond.(*ssa.BinOp)
+			if !ok || len(pe.Params) != 2 {
+				continue
+			}
+			op := token.ILLEGAL
+			switch {
+			case bo.X == ssa.Value(pe.Params[1]) && isPeekPrec(bo.Y):
+				op = bo.Op
+			case bo.Y == ssa.Value(pe.Params[1]) && isPeekPrec(bo.X):
+				op = flip[bo.Op]
+			default:
+				continue
+			}
+			if !f.Holds {
+				op = negate[op]
+			}
+			if op == 0 {
+				op = token.ILLEGAL
+			}
+			pm.cmpOp = op
 		}
 	}
 	if pm.cmpOp == 0 {
@@ -387,7 +462,7 @@ func (m *Model) analyseHandler(pm *prattModel, h *handler, _ string) {
 				h.steps = append(h.steps, parseStep{op: "expect", tok: tn})
 				consumed = true
 			case "parseExpression":
-				h.steps = append(h.steps, parseStep{op: "parse", bp: m.bpOf(c.Call.Args[1], consumed, c.Pos())})
+				h.steps = append(h.steps, parseStep{op: "parse", bp: m.bpOf(pm, c.Call.Args[1], consumed, c.Pos())})
 			case "parseExpressionList":
 				tn := "?"
 				if k, ok := c.Call.Args[1].(*ssa.Const); ok {
@@ -441,12 +516,12 @@ func (m *Model) analyseHandler(pm *prattModel, h *handler, _ string) {
 }
 
 // bpOf classifies the binding power argument of a parseExpression call.
-func (m *Model) bpOf(v ssa.Value, consumed bool, pos token.Pos) bpArg {
+func (m *Model) bpOf(pm *prattModel, v ssa.Value, consumed bool, pos token.Pos) bpArg {
 	if c, ok := v.(*ssa.Const); ok && c.Value != nil {
 		return bpArg{kind: bpConst, val: c.Int64(), pos: pos}
 	}
 	// precedences[p.curToken.Type], directly or through a helper method that returns it
-	if m.isOwnPrecRead(v, 0) {
+	if m.isOwnPrecRead(v, 0) || m.ownPrecSemantic(pm, v) {
 		// the read must happen before the operator is consumed; SSA places the
 		// read where the expression is evaluated, so check that no consuming call
 		// dominates the read
@@ -1156,4 +1231,109 @@ func (m *Model) RunCompleteExprSites(s *Sink, rule string) {
 				fnKey(st.fn), v, pm.lowest, v)
 		}
 	}
+}
+
+// parserInterp builds an interpreter for the parser's pure helpers in the token state
+// (curToken.Type = cur, peekToken.Type = peek; a negative value means unknown).
+// precLit is the `precedences` literal; registered(field, tokenValue) tells whether a parse function is registered.
+func (m *Model) parserInterp(cur, peek int64, precLit map[int64]int64, registered func(field string, tok int64) bool) *Interp {
+	ip := &Interp{m: m}
+	ip.load = func(v *ssa.UnOp, dirty bool) (any, bool) {
+		if dirty {
+			return nil, false
+		}
+		root, p, ok := pathOf(v)
+		if !ok || root == nil || !strings.HasSuffix(root.Type().String(), "parser.Parser") {
+			return nil, false
+		}
+		switch p {
+		case ".curToken.Type":
+			if cur >= 0 {
+				return constant.MakeInt64(cur), true
+			}
+		case ".peekToken.Type":
+			if peek >= 0 {
+				return constant.MakeInt64(peek), true
+			}
+		}
+		return nil, false
+	}
+	ip.lookup = func(l *ssa.Lookup, key any) (any, bool, bool) {
+		kc, isC := key.(constant.Value)
+		if !isC || kc.Kind() != constant.Int {
+			return nil, false, false
+		}
+		k, _ := constant.Int64Val(kc)
+		if ld, isLd := l.X.(*ssa.UnOp); isLd && ld.Op == token.MUL {
+			if g, isG := ld.X.(*ssa.Global); isG && g.Name() == "precedences" && shortPkg(g.Pkg.Pkg.Path()) == "parser" && precLit != nil {
+				v, present := precLit[k]
+				return constant.MakeInt64(v), present, true
+			}
+		}
+		if _, p, ok := pathOf(l.X); ok && registered != nil {
+			field := strings.TrimPrefix(p, ".")
+			if field == "prefixParseFns" || field == "infixParseFns" {
+				if registered(field, k) {
+					return iFn{}, true, true
+				}
+				return iNil{}, false, true
+			}
+		}
+		return nil, false, false
+	}
+	return ip
+}
+
+// globalMapWritten: is the package-level map written anywhere in module code (outside its initialiser)?
+func (m *Model) globalMapWritten(pkg, name string) string {
+	for _, fn := range m.ModFns {
+		if fn.Blocks == nil || fn.Name() == "init" {
+			continue
+		}
+		for _, b := range fn.Blocks {
+			for _, in := range b.Instrs {
+				var target ssa.Value
+				switch x := in.(type) {
+				case *ssa.MapUpdate:
+					target = x.Map
+				case *ssa.Store:
+					target = x.Addr
+				case *ssa.Call:
+					if bi, ok := x.Call.Value.(*ssa.Builtin); ok && (bi.Name() == "delete" || bi.Name() == "clear") && len(x.Call.Args) > 0 {
+						target = x.Call.Args[0]
+					}
+				}
+				if target == nil {
+					continue
+				}
+				if ld, ok := target.(*ssa.UnOp); ok && ld.Op == token.MUL {
+					target = ld.X
+				}
+				if g, ok := target.(*ssa.Global); ok && g.Name() == name && shortPkg(g.Pkg.Pkg.Path()) == pkg {
+					return m.InstrPos(in)
+				}
+			}
+		}
+	}
+	return ""
+}
+
+// ownPrecSemantic: for every token type T in the current-token position, v evaluates to the level
+// peekPrecedence() yields for T — i.e. v is "the precedence of the operator being parsed", however it is computed.
+func (m *Model) ownPrecSemantic(pm *prattModel, v ssa.Value) bool {
+	if pm.precPeek == nil || len(pm.precPeek) != len(pm.tokName) {
+		return false
+	}
+	for tv := range pm.tokName {
+		ip := m.parserInterp(tv, -1, pm.precLit, nil)
+		res, ok := ip.EvalValue(v, 0)
+		rc, isC := res.(constant.Value)
+		if !ok || !isC || rc.Kind() != constant.Int {
+			return false
+		}
+		if got, _ := constant.Int64Val(rc); got != pm.precPeek[tv] {
+			return false
+		}
+	}
+	return true
 }
